@@ -21,6 +21,7 @@ type Evidence struct {
 	Unknown      int
 	Restarts     int
 	Retries      int
+	Cross        map[string]interface{}
 	PreHits      int
 	SolverSecs   float64
 	MaxQuery     float64
@@ -152,6 +153,9 @@ func (e *Evidence) write() {
 	}
 	if e.cfg != nil {
 		cov["outside_the_claim"] = e.cfg.Outside
+	}
+	if e.Cross != nil {
+		cov["cross_checked_with_other_solvers"] = e.Cross
 	}
 	assum := []string{"z3 4.8.12 answers are correct", "go/ssa (x/tools v0.29.0) translation of the repository's source is faithful", "executor semantics per DESIGN.md section 2 (intrinsics listed there are models, not executed code)"}
 	if e.cfg != nil {
